@@ -33,7 +33,7 @@ SRC = {
 module geo
   !! GEODOC
   implicit none
-  private :: hidden_proc, hidden_var
+  private :: hidden_proc, hidden_var, combine_h
   integer :: size
   !! SIZEVARDOC
   integer :: hidden_var
@@ -54,6 +54,7 @@ module geo
   interface combine
     !! generic combine
     module procedure combine_i
+    module procedure combine_h
   end interface combine
   abstract interface
     subroutine callback(n)
@@ -105,6 +106,10 @@ contains
   subroutine hidden_proc()
     !! a private procedure
   end subroutine hidden_proc
+  subroutine combine_h(a)
+    !! a private specific of combine
+    real :: a
+  end subroutine combine_h
 end module geo
 submodule (geo) geo_impl
   !! SUBMODDOC
@@ -174,7 +179,7 @@ TOP = {
     "shape": "type", "shape2": "type", "callback": "absinterface", "config": "namelist",
     # procedures (incl. generic interfaces and the constructor interface)
     "area": "proc", "scale": "proc", "setup": "proc", "area_impl": "proc", "done": "proc", "make_shape": "proc", "combine_i": "proc",
-    "combine": "proc", "perimeter": "proc", "later": "proc", "hidden_proc": "proc",
+    "combine": "proc", "perimeter": "proc", "later": "proc", "hidden_proc": "proc", "combine_h": "proc",
     "heatsolver": "module", "1d_heat.f90": "file", "grid_t": "type", "step": "proc",
 }
 # children: parent -> [(name, subkind)]
@@ -313,6 +318,7 @@ def catalogue(private=False):
     add("[[nosuch(module)]]", "ABSENT")
     add("[[geo:nosuch]]", "PARENT:geo")
     add("[[hidden_proc]]", "hidden_proc" if private else "ABSENT")
+    add("[[combine:combine_h(modproc)]]", "combine_h" if private else "PARENT:combine")  # the specific is not documented: at most the generic is linked
     add("[[geo:hidden_var]]", "geo/hidden_var(variable)" if private else "PARENT:geo")
     return [c for c in C if c is not None]
 
